@@ -16,6 +16,12 @@ package sender
 //@ requires sqe.Submission.Sender.Task.Mesg.Type == message.Notify ==> sqe.Submission.Sender.Promise != nil
 // dispatch (C19): the message goes to the transport named by the resolved receiver, carries that receiver's
 // data and the task's message type; a logical name resolves through the configured targets first
+// the dispatched body (C19, C01, C20): a JSON object that names the message type and carries, for a notification, the
+// completed promise itself (the pointer: promise states render through their pointer-receiver MarshalJSON, exactly as
+// in every other reply) and, for an invocation or a resumption, the task and the three links of this submission
+//@ site call Marshal assert [C19 C01 C20 C08] ismap(v) && has_key(dyn(v), "type")
+//@ site call Marshal assert [C19 C01 C20 C08] sqe.Submission.Sender.Task.Mesg.Type == message.Notify ==> ismap(v) && has_key(dyn(v), "promise") && dyn(dyn(v)["promise"]) == sqe.Submission.Sender.Promise
+//@ site call Marshal assert [C19 C01 C20 C08] sqe.Submission.Sender.Task.Mesg.Type != message.Notify ==> ismap(v) && has_key(dyn(v), "task") && dyn(dyn(v)["task"]) == sqe.Submission.Sender.Task && has_key(dyn(v), "href")
 //@ site call Enqueue assert recv != nil && arg0 != nil && arg0.Type == sqe.Submission.Sender.Task.Mesg.Type && arg0.Data == recv.Data && arg0.Done != nil
 //@ site call Enqueue assert has_key(w.plugins, recv.Type) && self == w.plugins[recv.Type]
 //@ site call Enqueue assert logicalRecv != nil && has_key(w.targets, *logicalRecv) && w.targets[*logicalRecv] != nil ==> recv == w.targets[*logicalRecv]
